@@ -39,7 +39,7 @@ def run(tier):
         if p.returncode != 0:
             raise vf.Infra("scan trace failed: " + p.stderr[-2000:])
         info = json.loads(p.stdout)
-        viols, events, _ = vf.monitor_trace("ScanTrace", "ScanTrace.cfg", trace, max_events=40000)
+        viols, events, _ = vf.monitor_trace("ScanTrace", "ScanTrace.cfg", trace, max_events=40000, independent=True)
         if viols:
             full = open(trace + ".full").read().split("\n")
         seen = set()
